@@ -7,6 +7,7 @@ import (
 	"encoding/json"
 	"fmt"
 	"net/url"
+	"os"
 	"strings"
 
 	"github.com/pentops/j5/lib/j5codec"
@@ -46,17 +47,20 @@ type caseSpec struct {
 
 type callRes struct {
 	Err   string
+	Nil   bool // Schema returned a nil (typed nil) schema and no error
 	Panic string
 	Tree  *cdesc.Tree
 	Out   string
 }
 
-func (r callRes) failed() bool { return r.Err != "" || r.Panic != "" }
+func (r callRes) failed() bool { return r.Err != "" || r.Panic != "" || r.Nil }
 
 func (r callRes) String() string {
 	switch {
 	case r.Panic != "":
 		return "panic: " + r.Panic
+	case r.Nil:
+		return "nil schema, no error"
 	case r.Err != "":
 		return "error: " + r.Err
 	case r.Tree != nil:
@@ -70,7 +74,7 @@ func sameRes(a, b callRes) bool {
 		return false
 	}
 	if a.failed() {
-		return (a.Panic != "") == (b.Panic != "")
+		return (a.Panic != "") == (b.Panic != "") && a.Nil == b.Nil
 	}
 	if (a.Tree == nil) != (b.Tree == nil) {
 		return false
@@ -122,6 +126,10 @@ func (e *caseEnv) doCall(sh *sharedObj, c call) (res callRes) {
 		root, err := sh.cache.Schema(e.b.Msg[c.Node])
 		if err != nil {
 			return callRes{Err: err.Error()}
+		}
+		if cdesc.NilSchema(root) {
+			// the typed nil pointer of a failed build, handed out without an error: not a usable schema
+			return callRes{Nil: true}
 		}
 		return callRes{Tree: e.b.UnfoldRoot(e.k, root)}
 	case kEncode:
@@ -332,7 +340,49 @@ func callsTerm(cs [][]call) string {
 	return "[" + strings.Join(parts, ";") + "]"
 }
 
+// replayOne runs the forced-schedule case stored in a replay file (its "input"), and prints
+// the trace and the results next to what each call returns alone. For debugging:
+//
+//	run_conc -prop C10 -out DIR -replay FILE
+func replayOne(path string) error {
+	raw, err := os.ReadFile(path)
+	if err != nil {
+		return err
+	}
+	var doc struct {
+		Input caseSpec `json:"input"`
+	}
+	if err := json.Unmarshal(raw, &doc); err != nil {
+		return err
+	}
+	cs := &doc.Input
+	if cs.U == nil {
+		return fmt.Errorf("%s: no forced-schedule input", path)
+	}
+	env, err := newEnv(cs.U, cs.K)
+	if err != nil {
+		return err
+	}
+	run := runForced(cs, env)
+	fmt.Printf("graph %s\ncalls %s\nschedule %s\ntrace    %s\n", cs.U.CoqGraph(), callsTerm(cs.Calls), intsN(run.Sched), intsN(run.Trace))
+	for i, l := range run.Trace {
+		fmt.Printf(" t%d:%s", run.Sched[i], labelName[l])
+	}
+	fmt.Println()
+	for t, th := range cs.Calls {
+		for k, c := range th {
+			if k < len(run.Res[t]) {
+				fmt.Printf("thread %d call %d (%s of node %d): %s   | alone: %s\n", t, k, kindName[c.Kind], c.Node, run.Res[t][k], env.solo(c))
+			}
+		}
+	}
+	return nil
+}
+
 func runC10(cfg *vh.Config) error {
+	if cfg.Replay != "" {
+		return replayOne(cfg.Replay)
+	}
 	res := vh.NewResult("C10", cfg.Seed)
 	res.Rule = "forced schedules on the real SchemaCache / Codec / package-level Global codec through the verifhook points: type universes (a quarter of them with one or two types that have a field of an unsupported type and so fail to reflect, as do the types that reach them; chain, shared sub-schema, mutual+self recursion, disjoint, random graphs of 2-7 messages/enums in 1-3 packages, list and map fields; in codec/global mode a third of the universes also have exposed oneofs and oneof wrapper messages — those cases go to the direct oracle only), 2-6 threads of 0-3 calls (Schema / encode / decode / query-decode), schedules uniform / bursts / stall-after-k / all-enter, each drained round-robin; plus the model's two refutation witnesses in every mode; plus real goroutines under the race detector (first use on fresh codecs). non-trivial = distinct (universe, calls, schedule) with at least two threads that make a call"
 	cf := &vh.CasesFile{
@@ -433,7 +483,9 @@ func runC10(cfg *vh.Config) error {
 						Input: input, Got: fmt.Sprintf("thread %d call %d (%s of type %d): %s", t, k, kindName[c.Kind], c.Node, got), Want: want.String()})
 				}
 				if c.Kind == kSchema {
-					if got.failed() {
+					if got.Nil {
+						os = append(os, "ORes RNil")
+					} else if got.failed() {
 						os = append(os, "ORes RErr")
 					} else {
 						os = append(os, "ORes (ROk ("+got.Tree.Coq()+"))")
